@@ -103,6 +103,49 @@ def exact(ast, stats):
     return a / b
 
 
+def well_conditioned(ast, stats, rel=1e-11):
+    """True when the expression's value is insensitive (to `rel`) to rounding: of its intermediate results (evaluated in
+    float64 like any implementation would) and of the statistics themselves (perturbed by a few ulps, one at a time).
+    Ill-conditioned expressions (cancellation between a constant and a tiny statistic, ...) have no float64 value that two
+    correct implementations would agree on to 1e-9, so they are not used to judge create_config."""
+    class F(float):
+        pass
+    try:
+        ref = exact(ast, {k: Fraction(v) for k, v in stats.items()})
+        vals = [float(exact_float(ast, stats))]
+        for k in stats:
+            for f in (1 - 2.0 ** -48, 1 + 2.0 ** -48):
+                vals.append(float(exact(ast, {**{q: Fraction(v) for q, v in stats.items()}, k: Fraction(stats[k] * f)})))
+    except (ZeroDivisionError, OverflowError):
+        return False
+    r = float(ref)
+    return all(math.isfinite(v) and abs(v - r) <= rel * abs(r) for v in vals)
+
+
+def exact_float(ast, stats):
+    """the same evaluation in float64 arithmetic"""
+    k = ast[0]
+    if k == "stat":
+        return float(stats[ast[1]])
+    if k == "num":
+        return float(ast[1])
+    if k == "par":
+        return exact_float(ast[1], stats)
+    if k == "un":
+        v = exact_float(ast[3], stats)
+        return -v if (ast[1] == "-" and ast[2] % 2) else v
+    a, b = exact_float(ast[2], stats), exact_float(ast[3], stats)
+    if ast[1] == "+":
+        return a + b
+    if ast[1] == "-":
+        return a - b
+    if ast[1] == "*":
+        return a * b
+    if b == 0:
+        raise ZeroDivisionError
+    return a / b
+
+
 def flat_eval(tokens, stats):
     """second, independent oracle: precedence-climbing straight over the token list (catches a
     mistake in the AST bookkeeping of the generator itself)"""
@@ -295,7 +338,9 @@ def part_validator(ctx) -> None:
     rng = ctx.rng
     good = ["min", "max", "mean", "std", "+", "-", "*", "/", "(", ")", "1", "2.5", "0", "10", "3.", "1e2"]
     badtok = ["median", "MIN", "Max", "sum", "^", "**", "%", "[", "]", "min+1", "(min", "std)", "2*3", "abs", "e", "pi", ",",
-              "mean,", "x", "__import__", "min;", "$", "1/2"]
+              "mean,", "x", "__import__", "min;", "$", "1/2",
+              # runs of allowed characters are not allowed tokens (a token is one operator, one parenthesis, one statistic)
+              "+-", "*/", "-*", "+-*/", "--", "()", ")(", "((", "minmax", "meanstd", "ma", "in", "-+"]
     unjudged = ["nan", "inf", "-inf", "infinity", "1_0", "１２", "NaN", ""]
     for _ in range(ctx.pick(2500, 15000)):
         k = rng.randrange(1, 8)
@@ -341,6 +386,13 @@ def write_climatology(scratch, rng, three_d, zero_sum=False):
     lat0, lon0 = rng.choice([-30.0, 0.0, 41.0]), rng.choice([-120.0, -3.0, 10.0, 150.0])
     lat = lat0 + np.arange(nlat) * 1.0
     lon = lon0 + np.arange(nlon) * 1.0
+    if rng.random() < 0.2:
+        lon = 179.5 - np.arange(nlon)[::-1] * 1.0  # a grid that ends half a degree west of the antimeridian
+    # coordinate axes may be stored in either direction (north-to-south latitudes are common)
+    if rng.random() < 0.35:
+        lat = lat[::-1].copy()
+    if rng.random() < 0.2:
+        lon = lon[::-1].copy()
     field = np.array([[rng.choice([-2.0, -1.0, 0.5, 1.0, 2.0, 3.5, 7.0, 12.25]) for _ in range(nlon)] for _ in range(nlat)])
     land = np.array([[rng.random() < 0.2 for _ in range(nlon)] for _ in range(nlat)])
     if zero_sum:
@@ -384,7 +436,7 @@ def part_creator(ctx) -> None:
                 else:
                     vals[:, i0, j0], vals[:, i0, j0 + 1] = 1.0, -1.0
                 field = vals[0, 0] if three_d else vals[0]
-                bbox = [float(lon[j0]) - 0.25, float(lat[i0]) - 0.25, float(lon[j0 + 1]) + 0.25, float(lat[i0]) + 0.25]
+                bbox = [float(min(lon[j0], lon[j0 + 1])) - 0.25, float(lat[i0]) - 0.25, float(max(lon[j0], lon[j0 + 1])) + 0.25, float(lat[i0]) + 0.25]
             else:
                 for _try in range(30):
                     i1, i2 = sorted(rng.sample(range(len(lat) + 1), 2))
@@ -396,13 +448,17 @@ def part_creator(ctx) -> None:
                         break
                 else:
                     continue
-                bbox = [float(lon[j1]) - 0.25, float(lat[i1]) - 0.25, float(lon[j2 - 1]) + 0.25, float(lat[i2 - 1]) + 0.25]
+                (w_, e_), (s_, n_) = sorted((float(lon[j1]), float(lon[j2 - 1]))), sorted((float(lat[i1]), float(lat[i2 - 1])))
+                bbox = [w_ - 0.25, s_ - 0.25, e_ + 0.25, n_ + 0.25]
+                if e_ == 179.5:
+                    bbox[2] = 180.0  # the antimeridian itself is a legal east edge
+                    ctx.count("c20.create_config_east_edge_180")
                 if it % 7 == 3:
                     # a degenerate box on one grid meridian / parallel: the cells on that line are the cells inside
                     if rng.random() < 0.5:
-                        bbox = [float(lon[j1]), float(lat[i1]) - 0.25, float(lon[j1]), float(lat[i2 - 1]) + 0.25]
+                        bbox = [float(lon[j1]), s_ - 0.25, float(lon[j1]), n_ + 0.25]
                     else:
-                        bbox = [float(lon[j1]) - 0.25, float(lat[i1]), float(lon[j2 - 1]) + 0.25, float(lat[i1])]
+                        bbox = [w_ - 0.25, float(lat[i1]), e_ + 0.25, float(lat[i1])]
                     chk = field[(lat >= bbox[1]) & (lat <= bbox[3])][:, (lon >= bbox[0]) & (lon <= bbox[2])]
                     if not np.isfinite(chk).any() or np.nansum(chk) == 0:
                         continue
@@ -410,7 +466,7 @@ def part_creator(ctx) -> None:
                 elif it % 3 == 0 and i2 - i1 >= 3 and j2 - j1 >= 3:
                     # edges exactly on grid coordinates: 'inside' may mean the closed or the open box, but the same on
                     # all four sides -- both readings are admissible, a mixture is not
-                    bbox = [float(lon[j1]), float(lat[i1]), float(lon[j2 - 1]), float(lat[i2 - 1])]
+                    bbox = [w_, s_, e_, n_]
                     on_grid = True
             path = scratch.path(".nc")
             ds.to_netcdf(path, engine="scipy")
@@ -444,9 +500,11 @@ def part_creator(ctx) -> None:
                         toks, ast = gen_expr(rng, rng.randrange(0, 4))
                         try:
                             val = exact(ast, {k: Fraction(v) for k, v in stats.items()})
-                            break
                         except ZeroDivisionError:
                             continue
+                        if well_conditioned(ast, stats) and (alt_stats is None or well_conditioned(ast, alt_stats)):
+                            break
+                        ctx.count("c20.ill_conditioned_expressions_regenerated")
                     tests[tname][f] = " ".join(toks)
                     exprs[(tname, f)] = float(val)
                     if alt_stats is not None:
